@@ -58,7 +58,7 @@ PROPS["C20"] = dict(
          "'backup'/'.snapshot'/a drawn folder; their files are regular files of the tree like any other (path and content must come back, also through later rounds and edits). Under a spelled case the scratch directory must hold nothing but "
          "source, archive, destination (and the harness's own 'outside'/'work') after every round and the working directory {BASE}/work must stay empty (zip:stray-entry). rapid: a third of the trees are spelled (working directory drawn from none/base/work/parent, "
          "source relative in 3 of 4 of those with a working directory), a quarter hold 1..2 echo entries; unit spellings: one tree with every echo shape x a joint walk through 14 source spellings x 11 archive spellings x 49 destination spellings x 5 filters "
-         "(nil, suffix, keep-only and exclude directory 'src', suffix 'src/f.txt') x recursive flag x destination present/absent x one or two rounds (154 cases, thorough 1078) "
+         "(nil, suffix, keep-only and exclude directory 'src', suffix 'src/f.txt') x recursive flag x destination present/absent x one or two rounds (154 cases, thorough 686: every source spelling with every destination spelling) "
          "(classes tree_args_spelled, tree_calls_from_working_directory:*, tree_*_spelled*, tree_destination_trailing:*, tree_echo_*, tree_selected_path_contains_the_*_again, tree_selected_file_below_directory_named_like_the_source). "
          "Violation messages mask the scratch names also where they occur inside tree paths ({BASE}, {BASENAME}, {TMP}). "
          "Excluded as outside the documented domain: unclean source paths (see above), "
